@@ -3,6 +3,7 @@
 mod fam_asm;
 mod fam_check;
 mod fam_lock;
+mod fam_serde;
 mod fam_crypto;
 mod fam_sign;
 mod fam_types;
@@ -47,6 +48,9 @@ fn dispatch(fam: &str, rest: &[&str]) -> Result<String, String> {
         return r;
     }
     if let Some(r) = fam_lock::run(fam, &mut t) {
+        return r;
+    }
+    if let Some(r) = fam_serde::run(fam, &mut t) {
         return r;
     }
     Err("bad-family".to_string())
